@@ -86,15 +86,17 @@ def run(case, ctx, rng):
         ctx.eq('crc32==zlib', call(C.crc32, d), zlib.crc32(d), data=d)
     elif k == 'generic':
         w = case['width']
-        P = rng.getrandbits(w) | (1 << (w - 1))
+        # any reflected polynomial of the width: top coefficient set (the usual case), clear, a small value, a single bit
+        pc = ['top-set', 'top-clear', 'top-set', 'small', 'top-clear', 'one-bit'][(w + case['n'] + len(case['init'])) % 6]
+        P = {'top-set': rng.getrandbits(w) | (1 << (w - 1)), 'top-clear': rng.getrandbits(w - 1) | 1, 'small': rng.randrange(1, 256), 'one-bit': 1 << rng.randrange(w)}[pc]
         init, final = _val(rng, case['init'], w), _val(rng, case['final'], w)
         d = pattern(rng, case['n'], case['pat'])
-        ctx.cls(('generic', w, case['init'], case['final']))
+        ctx.cls(('generic', w, case['init'], case['final'], pc))
         got = call(lambda: C.crc(d, C.crc_table(Bits(P, w)), init, final))
         ctx.eq('crc-generic==bitwise', got, bitwise_crc(P, w, d, init, final), P=P, width=w, init=init, final=final, data=d)
     elif k == 'table-reuse':
         w = case['width']
-        P = rng.getrandbits(w) | (1 << (w - 1))
+        P = rng.getrandbits(w) | (1 << (w - 1)) if case['final'] != 'rand' else rng.getrandbits(w - 2) | 1
         PB = Bits(P, w)
         T = call(C.crc_table, PB)
         ctx.cls(('table-reuse', w, case['final']))
